@@ -46,6 +46,7 @@ type Engine struct {
 	loopCount map[*ssa.BasicBlock]int
 	elemOf    map[*Value]elemRef
 	allocBudget int64
+	hooks       map[string]Value
 	sch         *sched
 	killAck     chan struct{}
 	schedLog    []int
@@ -102,6 +103,7 @@ func (e *Engine) beginPath() {
 	e.pathData = map[string]interface{}{}
 	e.elemOf = map[*Value]elemRef{}
 	e.allocBudget = 0
+	e.hooks = map[string]Value{}
 	e.sch = nil
 	e.schedLog = nil
 	e.allocSmall, e.allocLarge = 0, 0
@@ -1359,6 +1361,11 @@ func (e *Engine) equal(x, y Value) Term {
 	case *OpaqueErr:
 		yv, _ := y.(*OpaqueErr)
 		return Bool(xv == yv)
+	case *ctxStub:
+		yv, _ := y.(*ctxStub)
+		return Bool(xv == yv)
+	case nativeFunc:
+		return Bool(false)
 	case RType:
 		yv, ok := y.(RType)
 		return Bool(ok && types.Identical(xv.T, yv.T))
